@@ -28,6 +28,7 @@ def run(chk, tier):
     gtpl.check(chk)
     gflow.check_free_text(chk)
     gflow.check_numeric_text(chk)
+    gflow.check_dependency_names(chk)
     gtab.check(chk, facts, which=("keys", "literal", "sizes", "wrapper"))
     gnames.check_keywords(chk)
     gnames.check_name_capture(chk)
